@@ -182,6 +182,10 @@ type yangMetaStack struct {
 }
 
 func (s *yangMetaStack) push(def interface{}) interface{} {
+	if s.count == len(s.defs) {
+		// nested deeper than the initial size
+		s.defs = append(s.defs, make([]interface{}, len(s.defs)+1)...)
+	}
 	s.defs[s.count] = def
 	s.count++
 	return def
